@@ -97,6 +97,7 @@ ExpectValue(type, v, cur) ==
     CASE type \in StructTypes -> Expect(StructOf(type), AsDoc(v), cur)
       [] type = "ptr:sub" -> Expect(Structs.sub, AsDoc(v), IF cur = Null THEN ZeroStruct(Structs.sub) ELSE cur)
       [] type = "slice_struct:sub" -> [t |-> "q", e |-> [i \in 1..Len(v.e) |-> Expect(Structs.sub, AsDoc(v.e[i]), ZeroStruct(Structs.sub))]]   \* every element starts from zero
+      [] type = "map_ss" -> [t |-> "m", kv |-> [i \in 1..Len(v.kv) |-> <<v.kv[i][1], IF v.kv[i][2] = Null THEN Str("") ELSE v.kv[i][2]>>]]   \* a null entry is the zero string
       [] OTHER -> v
 \* desc: descriptor, doc: document, dst: the destination struct's current value
 Expect(desc, doc, dst) ==
@@ -125,6 +126,7 @@ ImplValue(type, v, cur) ==
       [] type = "ptr:sub" -> DecodeImpl(Structs.sub, AsDoc(v), IF cur = Null THEN ZeroStruct(Structs.sub) ELSE cur)
       [] type = "slice_struct:sub" -> [t |-> "q", e |-> [i \in 1..Len(v.e) |-> DecodeImpl(Structs.sub, AsDoc(v.e[i]), ZeroStruct(Structs.sub))]]   \* x := reflect.New(etype) per element
       [] type = "slice_any" -> (IF v = EmptySeq /\ cur = Null /\ ~FixEmptySliceAny THEN Null ELSE v)    \* append(nil, empty...) is nil
+      [] type = "map_ss" -> [t |-> "m", kv |-> [i \in 1..Len(v.kv) |-> <<v.kv[i][1], IF v.kv[i][2] = Null THEN ZeroOf("string") ELSE v.kv[i][2]>>]]   \* Unmarshal(nil, *string) zeroes
       [] OTHER -> v
 \* loop over the fields: acc = pairs decided so far, outline = keys matched to fields
 FieldLoop(desc, doc, dst, i, acc, outline) ==
